@@ -1,10 +1,11 @@
 (* Model/Tagfilter.v — html::tagfilter, html::tagfilter_block and the option cascade of
    render_html_block / render_html_inline, written as the Rust is.  Every index or slice that
    Rust bounds-checks is an explicit Panic branch (whether or not it can be reached is a theorem,
-   not a modelling decision).  The blacklist comes from Gen/Tagfilter.v, isspace from Gen/Ctype.v;
-   the bodies are pinned by the translator item `tagfilter`. *)
+   not a modelling decision).  The blacklist and the byte set that ends a tag name (the `matches!`
+   pattern of the return expression) come from Gen/Tagfilter.v; the bodies are pinned by the translator
+   item `tagfilter`. *)
 From Coq Require Import List NArith Bool Strings.String.
-From V Require Import Base.Bytes Base.Res Gen.Ctype Gen.Tagfilter Model.Escape.
+From V Require Import Base.Bytes Base.Res Gen.Tagfilter Model.Escape.
 Import ListNotations.
 Local Open Scope string_scope.
 Local Open Scope list_scope.
@@ -32,12 +33,16 @@ Fixpoint eq_ignore_ascii_case (a b : bytes) : bool :=
   | _, _ => false
   end.
 
+(* matches!(literal[j], b' ' | b'\t' | b'\n' | 0x0b | 0x0c | b'\r'): the alternatives of the pattern are
+   regenerated as Gen.Tagfilter.tagfilter_name_end_ws *)
+Definition tf_space (c : byte) : bool := existsb (beqb c) tagfilter_name_end_ws.
+
 (* the `return` expression once a name matched:
-   isspace(literal[j]) || literal[j] == b'>' || (literal[j] == b'/' && literal.len() >= j + 2 && literal[j + 1] == b'>')
+   matches!(literal[j], ..) || literal[j] == b'>' || (literal[j] == b'/' && literal.len() >= j + 2 && literal[j + 1] == b'>')
    with short-circuit evaluation, every indexing checked *)
 Definition tf_terminator (literal : bytes) (j : nat) : res bool :=
   do c <- idx "html.rs:tagfilter:literal[j]" literal j;
-  if isspace c then Ok true
+  if tf_space c then Ok true
   else if beqb c x3e then Ok true
   else if beqb c x2f then
     if Nat.leb (j + 2) (List.length literal) then
